@@ -27,6 +27,7 @@ func alphabet() []string {
 		"regpipe t1 p1 n2,n3", "regpipe t1 p1 n2,n3 allow", "regpipe t1 p1 n2,n3 deny", "regpipe t1 p1 n2,n3 bogus", "regpipe t1 p1 n2,n3 empty",
 		"regpipe t1 p1 n2,n4", "regpipe t1 p1 n2,n4 deny",
 		"regpipe t2 p1 n2,n3", "regpipe t2 p1 n2,n3 deny",
+		"regpipe t1 p2 n2,n4", // a sibling pipeline of the same event type: the policy of p1 is p1's, whatever else is registered
 		"rmpipe t1 p1", "rmpipe t2 p1", "rmpipenodes t1 p1",
 		"send t1", "send t2",
 	}
@@ -39,10 +40,17 @@ var harness = &seqmc.Harness{
 		if tier == "thorough" {
 			d = 8
 		}
-		return []seqmc.Config{{Name: "policy-sequences", Alphabet: alphabet(), Depth: d}}
+		return []seqmc.Config{{Name: "policy-sequences", Alphabet: alphabet(), Depth: d, Permute: true},
+			// the same with nodes whose Close reports an error: an explicit removal still removes them, so a
+			// DenyOverwrite id is free again afterwards
+			{Name: "policy-sequences, Close of n2 and n3 fails", Alphabet: alphabet(), Depth: d - 1}}
 	},
 	New: func(tier string, cfg int) seqmc.Instance {
-		return &hn.RegInstance{R: hn.NewReg(hn.StdKinds()), Types: []string{"t1", "t2"}}
+		r := hn.NewReg(hn.StdKinds())
+		if cfg == 1 {
+			r.CloseErrIDs = map[string]bool{"n2": true, "n3": true}
+		}
+		return &hn.RegInstance{R: r, Types: []string{"t1", "t2"}}
 	},
 }
 
@@ -260,12 +268,23 @@ func main() {
 			for _, c := range denyScenarios(tier) {
 				n = append(n, c.Name)
 			}
-			return n
+			return append(n, "BFS policy-sequences, Close of n2 and n3 fails")
 		},
-		SplitScenario: func(tier string, scn int) bool { return scn > 0 },
+		SplitScenario: func(tier string, scn int) bool {
+			return scn > 0 && scn <= len(concScenarios(tier))+len(denyScenarios(tier))
+		},
 		RunJob: func(tier string, job hk.Job, deadline time.Time) *hk.Result {
 			if job.Scn == 0 {
 				return seqmc.RunJob(harness, tier, job, deadline)
+			}
+			if job.Scn == 1+len(concScenarios(tier))+len(denyScenarios(tier)) {
+				j := job
+				j.Scn = 1 // second BFS configuration
+				r := seqmc.RunJob(harness, tier, j, deadline)
+				for i := range r.Violations {
+					r.Violations[i].Scn = job.Scn
+				}
+				return r
 			}
 			if k := job.Scn - 1; k >= len(concScenarios(tier)) {
 				d := denyScenarios(tier)[k-len(concScenarios(tier))]
